@@ -42,11 +42,11 @@ REACH = ["shared_relay_pairs", "forged_create_live_exit_before_expiry", "forged_
          "forged_create_live_relay", "forged_destroy_non_neighbour", "forged_destroy_spoofed_source", "replayed_destroy", "cross_circuit_body",
          "garbage_on_live_id", "unknown_id_cell", "legit_destroy_removed_only_own", "data_delivered",
          "created_relabelled_with_live_exit_id", "signed_message_replayed_from_adversary_address", "forged_created_badauth", "forged_created_shortkey",
-         "plaintext_flagged_data_on_live_exit_id", "nested_data_message_from_outside", "data_cell_into_half_built_circuit", "custom_join_policy"]
+         "plaintext_flagged_data_on_live_exit_id", "nested_data_message_from_outside", "data_cell_into_half_built_circuit", "custom_join_policy", "keyless_relay_early_flood", "keyless_traffic_flood"]
 
 ATTACKS = ["unknown_id", "garbage_live", "cross_body", "create_live", "create_live", "destroy_own_sig", "destroy_replay",
            "destroy_spoofed_src", "created_cid_swap", "signed_replay_adv", "forged_created_badauth", "forged_created_shortkey",
-           "plain_data_live", "nested_data_from_outside", "data_into_half_built"]
+           "plain_data_live", "nested_data_from_outside", "data_into_half_built", "relay_early_flood", "traffic_flood"]
 
 
 def cases(tier: str, base_seed: int):  # noqa: ANN201
@@ -57,7 +57,8 @@ def cases(tier: str, base_seed: int):  # noqa: ANN201
             n += 1
             yield {"seed": base_seed + n, "knobs": {}, "originators": 2, "pool": 3, "circuits": [2, 2, 1, 3], "wait": wait,
                    "attacks": [{"kind": kind, "pick": k / 7.0} for k in range(6)],
-                   "join_policy": "accept_all" if kind == "create_live" and wait > 60 else None}
+                   "join_policy": "accept_all" if kind == "create_live" and wait > 60 else None,
+                   "max_traffic": 150000 if kind == "traffic_flood" else None}
     for i in itertools.count():
         seed = base_seed + 1000 + i
         rng = random.Random(f"c05/{seed}")
@@ -67,7 +68,7 @@ def cases(tier: str, base_seed: int):  # noqa: ANN201
                "knobs": {"lat_jit": rng.choice([0.0, 0.02, 0.1]), "dup": rng.choice([0.0, 0.0, 0.05]),
                          "timer_jitter": rng.choice([0.0, 0.001])},
                "attacks": [{"kind": rng.choice(ATTACKS), "pick": rng.random()} for _ in range(rng.choice([2, 5, 12]))],
-               "join_policy": rng.choice([None, None, "accept_all"])}
+               "join_policy": rng.choice([None, None, "accept_all"]), "max_traffic": rng.choice([None, None, 150000])}
 
 
 def execute(case: dict) -> dict:  # noqa: C901, PLR0915
@@ -80,7 +81,8 @@ def execute(case: dict) -> dict:  # noqa: C901, PLR0915
     n_orig, n_pool = case["originators"], case["pool"]
     n = n_orig + n_pool + 1                       # + adversary (last node)
     exits = tuple(range(n_orig + n_pool - 2, n_orig + n_pool))
-    tw = TunnelWorld(c, n=n, exits=exits, flags={n - 1: {8}})   # the adversary is no relay candidate
+    tw = TunnelWorld(c, n=n, exits=exits, flags={n - 1: {8}},   # the adversary is no relay candidate
+                     settings={"max_traffic": int(case["max_traffic"])} if case.get("max_traffic") else None)
     circuits: list = []     # dicts: origin node, circuit, server, markers
     destroys_seen: list = []
 
@@ -200,10 +202,13 @@ def execute(case: dict) -> dict:  # noqa: C901, PLR0915
         before = tables()
         # only entries of established circuits are expected to be stable (a half-built circuit may give up by time-out)
         stable: set = set()
+        owner_of: dict = {}       # stable key -> index of the circuit it belongs to
+        diverted: set = set()     # circuits whose forward path was diverted by a replayed signed message (not judged, see below)
         for ci in circuits:
             if ci["circ"].state != "READY":
                 continue
             cid = ci["circ"].circuit_id
+            n_before_ci = len(stable)
             stable.add((ci["o"].name, "circuits", cid))
             for hop_node in ci["path"]:
                 if hop_node is None:
@@ -217,6 +222,9 @@ def execute(case: dict) -> dict:  # noqa: C901, PLR0915
                 stable.add((hop_node.name, "relay_from_to", cid))
                 stable.add((hop_node.name, "relay_from_to", rel.circuit_id))
                 cid = rel.circuit_id
+            del n_before_ci
+            for k3 in stable:
+                owner_of.setdefault(k3, ci["idx"])
         after_expiry = case["wait"] > 61
         # ---------------------------------------------------------------- the attack burst
         live = sorted(stable & set(before))      # (node, table, cid)
@@ -276,6 +284,54 @@ def execute(case: dict) -> dict:  # noqa: C901, PLR0915
                     c.nontrivial(f"destroy_spoofed/{tname}/{after_expiry}")
                     pkt_d = adv.call(adv.ov.ezr_pack, DestroyPayload.msg_id, DestroyPayload(cid, 1 + int(pick * 3)))
                     net.inject(tuple(hop.address), target.address, pkt_d, label="forged_destroy")
+            elif kind == "traffic_flood":
+                # a volume of undecryptable cells naming an established circuit, sent to its ORIGINATOR by a third party: more bytes
+                # than the circuit's traffic allowance (only configurations with a small max_traffic make that practical)
+                if case.get("max_traffic") and tname == "circuits":
+                    world.probe("keyless_traffic_flood")
+                    c.nontrivial("traffic_flood")
+                    nbytes = 0
+                    k = 0
+                    while nbytes < int(case["max_traffic"]) * 1.3:
+                        k += 1
+                        body = rng.randbytes(1000)
+                        nbytes += 1029
+                        net.inject(adv.address, target.address, prefix + b"\x00" + cid.to_bytes(4, "big") + b"\x00\x00" + body,
+                                   delay=0.0001 * k)
+                    await asyncio.sleep(6.0)          # one sweep tick
+            elif kind == "relay_early_flood":
+                # a fresh 2-hop circuit; before its owner sends anything a third party (no keys) showers the first hop with
+                # undecryptable cells that name the circuit and carry the relay_early flag; the owner's first datagrams (which carry
+                # that flag too) must still get through
+                o = tw.nodes[int(pick * 7) % n_orig]
+                fresh = await tw.build_circuit(o, 2, tries=1)
+                if fresh is not None and fresh.state == "READY":
+                    fidx = 100 + len(circuits)
+                    wsrv = tw.add_outside(f"wf{fidx}", f"9.9.8.{fidx % 250}", 7500 + fidx % 400)
+                    fci = {"idx": fidx, "o": o, "w": wsrv, "circ": fresh, "sent": set(), "replies": set(), "path": tw.path_of(o, fresh)}
+                    circuits.append(fci)
+                    for k in range(14):
+                        net.inject(adv.address, fresh.hop.address,
+                                   prefix + b"\x00" + fresh.circuit_id.to_bytes(4, "big") + b"\x00\x01" + rng.randbytes(60), delay=0.0002 * (k + 1))
+                    await asyncio.sleep(0.2)
+                    world.probe("keyless_relay_early_flood")
+                    c.nontrivial("relay_early_flood")
+                    mine = []
+                    for k in range(5):
+                        pl = b"d" + b"FRESH%02d" % k + rng.randbytes(3).hex().encode() + b"e"
+                        mine.append(pl)
+                        fci["sent"].add(pl)
+                        fci["replies"].add(wsrv.reply(pl, None))
+                        o.call(o.ov.send_data, fresh.hop.address, fresh.circuit_id, UDPv4Address(*wsrv.address), ("0.0.0.0", 0), pl)
+                        await asyncio.sleep(0.05)
+                    await asyncio.sleep(1.5)
+                    got = {d for _t, d, _s in wsrv.received}
+                    if not case["knobs"].get("loss") and not any(pl in got for pl in mine) and not swap.get("replayed"):
+                        c.violate("tables_unchanged", "fresh_circuit_muted_by_keyless_cells",
+                                  f"none of the first {len(mine)} datagrams of a fresh 2-hop circuit left its exit after 14 undecryptable "
+                                  f"relay_early cells naming the circuit were sent to its first hop by a third party")
+                    o.call(o.ov.remove_circuit, fresh.circuit_id, "c05 fresh done", destroy=1)
+                    fci["removed"] = True
             elif kind == "plain_data_live":
                 # a well-formed DataPayload that simply claims to be plaintext, under the id of an established exit entry, towards an
                 # outside server of the adversary's choosing
@@ -357,6 +413,19 @@ def execute(case: dict) -> dict:  # noqa: C901, PLR0915
                 nb = tw.node_of_key(hop.peer.public_key.key_to_bin()) if hop is not None and hop.peer is not None else None
                 olds = [p for p in tw.wire if nb is not None and p.src_node == nb.name and not p.injected and len(p.data) > 23
                         and p.data[22] != 0 and p.data[:22] == prefix]
+                if olds:
+                    swap["replayed"] = True
+                    # (forward entries follow the Network's shared Peer object of that neighbour: the forward traffic of EVERY circuit
+                    #  of this node that runs towards that neighbour, pings included, now goes to the replayer and those circuits
+                    #  eventually die of inactivity - the documented denial of service that the statement does not cover; nothing
+                    #  about those circuits is judged from here on)
+                    nb_key = hop.peer.public_key.key_to_bin()
+                    for k3 in stable:
+                        ent = before.get(k3)
+                        if ent is None or k3[0] != node_name or ent[2] != nb_key:
+                            continue
+                        if k3[1] == "circuits" or (k3[1] == "relay_from_to" and getattr(ent[0], "direction", None) != 1):
+                            diverted.add(owner_of.get(k3))
                 for p in olds[:2] + olds[-2:]:
                     world.probe("signed_message_replayed_from_adversary_address")
                     c.nontrivial(f"signed_replay_adv/{tname}/{p.data[22]}")
@@ -406,6 +475,8 @@ def execute(case: dict) -> dict:  # noqa: C901, PLR0915
             now = after.get(key)
             if cid in legit_gone:
                 continue        # torn down by its own originator during the window: the id is free again
+            if owner_of.get(key) in diverted:
+                continue
             if now is None:
                 c.violate("tables_unchanged", f"entry_removed_by_forgery:{tname}",
                           f"{node}.{tname}[{cid}] disappeared during the attack window; attacks={[a['kind'] for a in case['attacks']]}")
@@ -432,7 +503,8 @@ def execute(case: dict) -> dict:  # noqa: C901, PLR0915
             if key not in before and key[2] in {k[2] for k in before} and key[2] not in legit_gone:
                 c.violate("tables_unchanged", f"entry_added_for_live_id:{key[1]}", f"{key} appeared during the attack window")
         # ---------------------------------------------------------------- legitimate teardown of one circuit
-        alive = [ci for ci in circuits if not ci.get("removed") and ci["circ"].state == "READY"]
+        alive = [ci for ci in circuits if not ci.get("removed") and ci["circ"].state == "READY" and ci["idx"] not in diverted
+                 and not swap.get("replayed")]
         if len(alive) >= 2:
             gone = alive[0]
             gone["o"].call(gone["o"].ov.remove_circuit, gone["circ"].circuit_id, "c05 legit", destroy=1)
